@@ -192,7 +192,7 @@ impl SimInner {
         self.lock().now_ns
     }
     fn to_ns(&self, i: Instant) -> u64 {
-        i.saturating_duration_since(self.epoch).as_nanos() as u64
+        i.saturating_duration_since(self.epoch).as_nanos().min(u64::MAX as u128 / 4) as u64
     }
 }
 
